@@ -60,6 +60,20 @@ CLAIMED.update({
             "DESIGN.md §3 C05"),
 })
 
+CLAIMED.update({
+    "C18": ("Sequential part, decided as inductive steps on the real engine: (a) the three shipped machines (control machine in all "
+            "4x2 configurations) from every state with active flags == ancestors, every transition name and an unknown name; (b) "
+            "generated machines - all forests over 4 (thorough 5) states with solver-chosen parent pointers, any current state, a "
+            "transition and its reverse: refused requests raise and change nothing, allowed ones end at the destination with active == "
+            "ancestors(current) and exactly the leave/enter/called events of the states exited/entered; (c) a follow-up transition "
+            "requested from inside an enter handler. Two open findings (uneven depth below a common ancestor; nested request while a "
+            "parent is still to be entered) are excluded by their input-class predicates and re-proved as KNOWN-FINDING on every run.",
+            "Trusted: CrossHair + chx; pre-states constructed directly. NOT covered (stated, no claim): requests made concurrently from "
+            "several threads - _perform_transition has no lock; the interleaving encoding (E3) for it is not built. Outside: > 5 states, "
+            "follow-ups from leave/called handlers.",
+            "DESIGN.md §3 C18"),
+})
+
 NOT_APPLICABLE = {
 }
 
